@@ -648,6 +648,12 @@ fn schedvm_programs() -> Vec<(String, Vec<f64>, String)> {
             (0..12).map(|i| i as f64).collect(), "a self-rescheduling chain while 1088 far-future tasks are pending".to_string()));
     v.push((format!("let x = 0.0\nfn bump(){{\n  x = x + 1.0\n}}\nfn s1(){{\n  bump@3.0\n}}\n{bulk}s1024()\ns64()\nfn dsp(){{\n  x\n}}\n"),
             (0..6).map(|t| if t >= 3 { 1088.0 } else { 0.0 }).collect(), "1088 tasks due at the same sample".to_string()));
+    // a time literal that is merely CLOSE to a half-precision value: the VM must not round it (finding F25)
+    for (lit, at) in [("2.999995", 2usize), ("3.000004", 3), ("1.9999", 1), ("2.0", 2), ("1.999996", 1)] {
+        let src = format!("let x = 0.0\nfn a(){{\n  x = x + 1.0\n}}\na@{lit}\nfn dsp(){{\n  x\n}}\n");
+        let expect: Vec<f64> = (0..6usize).map(|t| if t >= at { 1.0 } else { 0.0 }).collect();
+        v.push((src, expect, format!("a one-shot scheduled for the literal time {lit}")));
+    }
     // a capturing closure that stays reachable through a holder (array element, assigned global) is scheduled again
     // after all of its pending tasks have fired: the handle must still denote the closure ("never dropped")
     v.push(("let x = 0.0\nfn make(c){\n    let f = | | { x = x + c }\n    f@2.0\n    [f]\n}\nlet cbs = make(1.0)\nfn again(){\n    cbs[0]@(now+2.0)\n    0.0\n}\nfn dsp(){\n    let d = if (now == 5.0) { again() } else { 0.0 }\n    x + d\n}\n".to_string(),
@@ -1171,6 +1177,14 @@ fn main() {
             (Ok(a), Ok(b)) if *a == expect && *b == expect => println!("HOLDS"),
             _ => println!("FAILS C11[each task runs exactly once at its sample ..; the VM and WASM runtimes agree] closures created in dsp capturing the current sample index, scheduled 2.5 samples ahead: expected {expect:?}, vm={vm:?}, wasm={wasm:?}"),
         }
+        return;
+    }
+    if args.get(1).map(|s| s.as_str()) == Some("sched-src") {
+        // developer aid: a program file with the scheduler plugin on the VM and on the WASM runtime
+        let src = std::fs::read_to_string(&args[2]).unwrap();
+        let n: usize = args.get(3).and_then(|s| s.parse().ok()).unwrap_or(8);
+        println!("VM   {:?}", run_vm_sched(&src, n));
+        println!("WASM {:?}", run_wasm_sched(&src, n));
         return;
     }
     if args.get(1).map(|s| s.as_str()) == Some("heap-src") {
